@@ -43,6 +43,26 @@ pub fn case_roundtrip(va: &dyn VariantApi, bytes: &[u8], st: &CaseStats) -> Resu
         if (c.len_in_str, c.len_in_str_except_prefix) != (v.len_str(), v.len_hex()) {
             return Err(format!("{}: advertised LEN_IN_STR/LEN_IN_STR_EXCEPT_PREFIX = {}/{} != {}/{}", v.name, c.len_in_str, c.len_in_str_except_prefix, v.len_str(), v.len_hex()));
         }
+        // the text a caller gets is the same whatever buffer it is written into: a larger buffer,
+        // and one that starts at an odd address
+        for (off, slack) in [(1usize, 0usize), (0, 8), (1, 23), (3, 40)] {
+            let mut big = vec![0xEEu8; off + want_len + slack];
+            let n = h.store_str(&mut big[off..], p).map_err(|e| format!("{}: store_into_str_bytes({:?}) into a buffer of {} + {} bytes failed: {:?}", v.name, p, want_len, slack, e))?;
+            st.eval();
+            if n != want_len || big[off..off + want_len] != text::encode(v, &stored, with)[..] {
+                return Err(format!(
+                    "{}: store_into_str_bytes({:?}) into a buffer of {} + {} bytes at address offset {} wrote {} (returned {}) != reference encoding {}",
+                    v.name,
+                    p,
+                    want_len,
+                    slack,
+                    off,
+                    show(&big[off..off + want_len]),
+                    n,
+                    show(&text::encode(v, &stored, with))
+                ));
+            }
+        }
         let mut buf = vec![0u8; want_len];
         let n = h.store_str(&mut buf, p).map_err(|e| format!("{}: store_into_str_bytes({:?}) into exact buffer failed: {:?}", v.name, p, e))?;
         st.eval();
@@ -189,6 +209,17 @@ pub fn case_parse(va: &dyn VariantApi, s: &[u8], p: Option<Prefix>, strict: bool
         }
     };
     judge("from_str_bytes", catch(|| va.from_str_bytes(s, p)))?;
+    {
+        // the same bytes at another address: a Vec is at least 8-aligned, so shift the copy by
+        // 1, 2 and 5 bytes (code that reads digit pairs or words through aligned accesses must
+        // not depend on where the caller's slice starts)
+        let mut shifted = vec![0x30u8; s.len() + 8];
+        for off in [1usize, 2, 5] {
+            shifted[off..off + s.len()].copy_from_slice(s);
+            let piece = &shifted[off..off + s.len()];
+            judge("from_str_bytes (input at a shifted address)", catch(|| va.from_str_bytes(piece, p)))?;
+        }
+    }
     if let Ok(text) = std::str::from_utf8(s) {
         judge("from_str_with", catch(|| va.from_str_with(text, p)))?;
         if p.is_none() {
@@ -387,6 +418,32 @@ pub fn case_buffer(va: &dyn VariantApi, b: &[u8], form: Form, l: usize, fill_kin
         Form::HexPrefix => (v.len_str(), text::encode(v, b, true)),
     };
     let before = prefill(fill_kind, seed, l);
+    // the buffer at an odd address inside a larger allocation: same verdict, same bytes, and the
+    // bytes before and after the slice untouched
+    {
+        let off = 1 + (seed % 3) as usize * 2; // 1, 3 or 5
+        let mut outer = vec![0xC3u8; off + l + 9];
+        outer[off..off + l].copy_from_slice(&before);
+        let r = catch(std::panic::AssertUnwindSafe(|| match form {
+            Form::Bytes => h.store_bytes(&mut outer[off..off + l]),
+            Form::Hex => h.store_str(&mut outer[off..off + l], Prefix::Empty),
+            Form::HexPrefix => h.store_str(&mut outer[off..off + l], Prefix::WithVersion),
+        }))
+        .map_err(|p| format!("{}: store ({:?}) into a buffer of {} bytes at an odd address panicked: {}", v.name, form, l, p))?;
+        st.eval();
+        if outer[..off].iter().chain(&outer[off + l..]).any(|&x| x != 0xC3) {
+            return Err(format!("{}: store ({:?}) into a {}-byte slice at address offset {} modified bytes outside the slice", v.name, form, l, off));
+        }
+        match r {
+            Ok(k) if l >= n && k == n => {
+                if outer[off..off + n] != repr[..] || outer[off + n..off + l] != before[n..] {
+                    return Err(format!("{}: store ({:?}) into a {}-byte slice at address offset {} wrote {} + tail, expected {} and an untouched tail", v.name, form, l, off, show(&outer[off..off + n]), show(&repr)));
+                }
+            }
+            Err(OErr::BufferIsTooSmall) if l < n => {}
+            other => return Err(format!("{}: store ({:?}) into a {}-byte slice at address offset {} returned {:?} (advertised size {})", v.name, form, l, off, other, n)),
+        }
+    }
     // exactly-sized heap buffer: a write past the slice is at least past the Vec's length
     let mut buf = before.clone();
     st.eval();
